@@ -1,5 +1,6 @@
 """C12 - file storage returns the latest stored bytes under every layout."""
 import gzip
+import json
 import os
 import shutil
 import urllib.parse
@@ -334,6 +335,46 @@ class FileStore(RuleBasedStateMachine):
             for cc in COORDS:
                 self._fetch_chunk(acc, key, cc, who)
         self.ops.add("cross_read")
+
+    @rule(form=st.sampled_from(["plain", "file", "file_escaped",
+                                "precomputed_file_escaped", "slash"]),
+          content=content_st)
+    @logged
+    def sharded_dir_via_url(self, form, content):
+        """A directory whose info declares sharded scales, addressed through
+        every URL spelling: the factory must give a sharded accessor rooted in
+        that very directory."""
+        from neuroglancer_scripts import accessor
+        from neuroglancer_scripts.sharded_file_accessor import \
+            ShardedFileAccessor
+        real = os.path.join(self.root, "sharded data")
+        os.makedirs(real, exist_ok=True)
+        info = ds.make_info("uint8", 1, [ds.make_scale(
+            "s0", [4, 4, 4], [2, 2, 2], "raw",
+            sharding=ds.sharding_dict(1, 1, 0))])
+        with open(os.path.join(real, "info"), "w") as f:
+            json.dump(info, f)
+        url = {"plain": real, "slash": real + "/", "file": "file://" + real,
+               "file_escaped": "file://" + urllib.parse.quote(real),
+               "precomputed_file_escaped": "precomputed://file://" +
+               urllib.parse.quote(real)}[form]
+        before = set(ds.tree_snapshot(self.root))
+        acc = accessor.get_accessor_for_url(url)
+        if not isinstance(acc, ShardedFileAccessor):
+            self.fail("URL %r of a sharded dataset gave a %s" % (
+                url, type(acc).__name__))
+        name = "probe_%s.json" % form
+        body = INFOS[len(content) % len(INFOS)]
+        acc.store_file(name, body, mime_type="application/json",
+                       overwrite=True)
+        if not os.path.isfile(os.path.join(real, name)):
+            new = sorted(set(ds.tree_snapshot(self.root)) - before)
+            self.fail("a file stored through %r did not land in %r; new "
+                      "paths: %s" % (url, real, new[:4]))
+        if acc.fetch_file(name) != body:
+            self.fail("fetch_file through %r returns other bytes" % url)
+        os.unlink(os.path.join(real, name))
+        self.ops.add("sharded_url")
 
     # -- escapes ---------------------------------------------------------------
     @rule(e=st.integers(0, len(ESCAPES) - 1),
